@@ -172,8 +172,15 @@ def fail_class(kind):
     return {"shape": "shape", "zero-col": "zero-col", "raises": "raises"}.get(kind, "values")
 
 
-def minres_key(spec, kind):
-    return {"check": "minres", "fail": fail_class(kind), "detail": kind, "mm": spec.get("mm", "callable"),
+def minres_key(spec, kind, extra=None):
+    k = minres_key0(spec, kind)
+    k.update(extra or {})
+    return k
+
+
+def minres_key0(spec, kind):
+    return {"check": "minres", "fail": fail_class(kind), "detail": kind, "illcond": float(spec["kappa"]) >= 1e3,
+            "mm": spec.get("mm", "callable"),
             "pre": spec.get("pre", "none"), "shifts": spec["shifts"]["kind"], "batch": len(spec["batch"]),
             "vec": bool(spec.get("rhs_vec")), "value": spec.get("value") is not None,
             "dtype": spec.get("dtype", "float64"), "fam": spec["fam"]}
@@ -204,11 +211,15 @@ def minres_direct(spec, T, obs, mi):
         e = float(P.rel_err_cols(x[:, live], xo[:, live]).max())
         if not e <= otol:
             fails.append(("iterate", "iterate after %d loop bodies differs from the minimal-residual iterate over the Krylov space by %.3g (rel.)" % (its, e)))
-    bound = G.residual_bound(spec, mi, st)
+    cap = G.n_iters(spec, mi, st["max_cg"])
+    exit_kind = "cap" if its >= cap else "test"
+    bound = G.residual_bound(spec, mi, st, exit_kind)
     if bound is not None:
         r = float(S.residuals(T, spec, x)[:, live].max())
         if not r <= bound:
-            fails.append(("residual", "relative residual %.3g of a shifted system exceeds %.3g (minres_tolerance %.1g)" % (r, bound, st["tol"])))
+            fails.append(("residual", "relative residual %.3g of a shifted system exceeds %.3g (minres_tolerance %.1g; the loop ended by %s after %d bodies)"
+                          % (r, bound, st["tol"], "the iteration cap n+3" if exit_kind == "cap" else "the convergence test", its),
+                          {"exit": exit_kind}))
     return fails
 
 
@@ -247,8 +258,8 @@ def run_minres_systems(ctx, systems):
                 fl_ += minres_scaling(spec, T, obs)
                 cnt["impl_calls"] += 1
             cnt["pred_evals"] += 1
-            for kind, what in fl_:
-                fails.append({"spec": spec, "max_iter": mi, "kind": kind, "what": what})
+            for f in fl_:
+                fails.append({"spec": spec, "max_iter": mi, "kind": f[0], "what": f[1], "extra": f[2] if len(f) > 2 else None})
             if obs["err"] is not None:
                 continue
             level, tol = G.policy(spec, mi, obs["settings"]["max_cg"])
@@ -266,7 +277,7 @@ def report_fails(ctx, fails, limit_per_key=1):
         if f.get("check") == "ciq":
             key = f["key"]
         else:
-            key = minres_key(f["spec"], f["kind"])
+            key = minres_key(f["spec"], f["kind"], f.get("extra"))
         sig = json.dumps({k: key[k] for k in key if k not in ("fam", "detail")}, sort_keys=True)
         seen[sig] = seen.get(sig, 0) + 1
         if seen[sig] > limit_per_key:
@@ -402,14 +413,128 @@ def run_shards_limited(ctx, shards, workers=5, timeout=900):
     return res
 
 
+# ------------------------------------------------------------------------------------------ contour integral quadrature
+
+def ciq_key(spec, kind):
+    return {"check": "ciq", "call": spec["call"], "op": spec["op"], "fail": fail_class(kind), "detail": kind,
+            "illcond": float(spec["kappa"]) >= 1e3, "batch": len(spec["batch"]), "lhs": bool(spec.get("lhs")),
+            "inverse": bool(spec.get("inverse"))}
+
+
+def to_cols(x, B, n, t):
+    """(*batch, n, t) -> (B, n, t) float64"""
+    return x.to(F64).reshape(B, n, t)
+
+
+def ciq_settings_lit(st):
+    return "(@MkSettings float %d %s %s)" % (st["max_cg"], fl(st["tol"]), fl(ZERO_THR))
+
+
+def run_ciq_one(spec):
+    """run the implementation for one spec; returns (fails, case literal + defs or None, tol setting)"""
+    from linear_operator import settings
+    from linear_operator.utils.contour_integral_quad import contour_integral_quad
+    op, K, rhs, lhs = S.build_op(spec)
+    n, t = spec["n"], spec["t"]
+    batch = tuple(torch.broadcast_shapes(K.shape[:-2], rhs.shape[:-2]))
+    B = S.prod(batch)
+    Kb = K.expand(*batch, n, n)
+    name = "q%d" % spec["cell"]
+    fails, lit, defs = [], None, []
+    with S.settings_ctx(spec):
+        st = S.read_settings()
+        tol = st["tol"]
+        try:
+            if spec["call"] == "direct":
+                out = contour_integral_quad(op, rhs, inverse=spec["inverse"])
+                fails = P.ciq_direct_pred(spec, K, rhs, out, tol, st["nq"])
+                if spec["model"] and not any(k == "shape" for k, _ in fails):
+                    solves, weights, no_shift, shifts = out
+                    Nq = solves.shape[0]
+                    defs = ["Definition %s_K : seq (mat float) := %s." % (name, mats_lit(Kb.reshape(B, n, n)))]
+                    lit = "CQ (MkQ %s %s_K %d %d %d %s %s %s %s %s %s %s None)" % (
+                        ciq_settings_lit(st), name, n, t, B, cols_lit(to_cols(rhs.expand(*batch, n, t), B, n, t)),
+                        common.coq_bool(spec["inverse"]), tab_lit(shifts.to(F64).reshape(Nq + 1, B)), fl(1e-25), fl(1e-9),
+                        qcn_lit(solves.to(F64).reshape(Nq, B, n, t).permute(0, 1, 3, 2).reshape(Nq, B * t, n)),
+                        cols_lit(to_cols(no_shift, B, n, t)))
+            elif spec["call"] == "sim":
+                with S.CiqRecorder() as rec:
+                    out = op.sqrt_inv_matmul(rhs, lhs) if lhs is not None else op.sqrt_inv_matmul(rhs)
+                ncalls = len(rec.calls)
+                twice = None
+                if lhs is None:
+                    twice = op.sqrt_inv_matmul(out)
+                fails = P.sim_pred(spec, K, rhs, lhs, out, twice, tol, st["nq"])
+                if spec["model"] and ncalls == 1 and not any(k == "shape" for k, _ in fails):
+                    c = rec.calls[0]
+                    Nq = c["weights"].shape[0]
+                    o = lhs.shape[-2] if lhs is not None else 0
+                    res = out[0] if lhs is not None else out
+                    iq = out[1].to(F64).reshape(B, o) if lhs is not None else torch.zeros(B, 1, dtype=F64)
+                    rows = (o if lhs is not None else n)
+                    defs = ["Definition %s_K : seq (mat float) := %s." % (name, mats_lit(Kb.reshape(B, n, n)))]
+                    lhs_l = "None"
+                    if lhs is not None:
+                        lb = lhs.expand(*batch, o, n).to(F64).reshape(B, o, n)
+                        lhs_l = "(Some (%d, %s))" % (o, seq_lit([tab_lit(lb[b]) for b in range(B)]))
+                    lit = "CF (MkF %s %s_K %d %d %d %s %s %s %s %s %s %s %s)" % (
+                        ciq_settings_lit(st), name, n, t, B, cols_lit(to_cols(rhs.expand(*batch, n, t), B, n, t)), lhs_l,
+                        tab_lit(c["shifts"].to(F64).reshape(Nq + 1, B)), tab_lit(c["weights"].to(F64).reshape(Nq, B)),
+                        fl(1e-25), fl(1e-9), cols_lit(res.to(F64).reshape(B, rows, t)), tab_lit(iq))
+            else:
+                ns = n
+                base = torch.eye(n, dtype=F64).expand(*batch, n, ns).clone()
+                with settings.ciq_samples(True), S.CiqRecorder() as rec, S.RandnPatch(base):
+                    samples = op.zero_mean_mvn_samples(ns)
+                fails = P.sample_pred(spec, Kb, samples, tol, st["nq"])
+                if spec["model"] and len(rec.calls) == 1 and not fails:
+                    c = rec.calls[0]
+                    Nq = c["weights"].shape[0]
+                    Bp = ns * B
+                    Kp = Kb.reshape(1, B, n, n).expand(ns, B, n, n).reshape(Bp, n, n)
+                    defs = ["Definition %s_K : seq (mat float) := %s." % (name, mats_lit(Kp))]
+                    lit = "CS (MkS %s %s_K %d %d %s %s %s %s %s %s)" % (
+                        ciq_settings_lit(st), name, n, Bp, cols_lit(c["rhs"].to(F64).reshape(Bp, n, 1)),
+                        tab_lit(c["shifts"].to(F64).reshape(Nq + 1, Bp)), tab_lit(c["weights"].to(F64).reshape(Nq, Bp)),
+                        fl(1e-25), fl(1e-9), cols_lit(samples.to(F64).reshape(Bp, n, 1)))
+        except Exception as ex:  # noqa
+            import traceback
+            fails = [("raises", "%s raised %s: %s" % (spec["call"], type(ex).__name__, str(ex)[:160]))]
+            lit = None
+    return fails, lit, defs
+
+
 def run_ciq_cases(ctx, quick):
-    return [], [], {}
+    specs = G.ciq_specs(quick, ctx.seed)
+    cases, fails = [], []
+    cnt = {"specs": len(specs), "model_cases": 0, "pred_evals": 0, "by_call": {}}
+    for spec in specs:
+        fl_, lit, defs = run_ciq_one(spec)
+        cnt["pred_evals"] += 1
+        cnt["by_call"][spec["call"]] = cnt["by_call"].get(spec["call"], 0) + 1
+        for kind, what in fl_:
+            fails.append({"check": "ciq", "spec": spec, "kind": kind, "what": what, "key": ciq_key(spec, kind)})
+        if lit is not None:
+            cnt["model_cases"] += 1
+            cases.append({"name": "q%d" % spec["cell"], "spec": spec, "level": 1, "tol": 1e-9, "lit": lit, "defs": defs,
+                          "direct_failed": bool(fl_), "kind": "ciq",
+                          "sig": [spec["op"], spec["call"], spec["batch"], spec["t"], spec.get("lhs"), spec.get("inverse"),
+                                  spec["n"], spec["fam"], spec.get("set_nq"), spec.get("set_tol"), spec.get("rhs_batch")]})
+    return cases, fails, cnt
 
 
 def replay(rp):
     torch.set_num_threads(1)
     c = rp.get("case", {})
     spec = c.get("spec")
+    if spec and c.get("check") == "ciq":
+        fl_, _, _ = run_ciq_one(spec)
+        print("spec:", json.dumps(spec))
+        for kind, what in fl_:
+            print("property failure [%s]: %s" % (kind, what))
+        if not fl_:
+            print("every property predicate holds on this call")
+        return 1 if fl_ else 0
     if not spec:
         print(json.dumps(rp, indent=1)[:2000])
         return 1
@@ -419,8 +544,8 @@ def replay(rp):
     fl_ = minres_direct(spec, T, obs, mi)
     print("spec:", json.dumps(spec))
     print("max_iter:", mi, "loop bodies:", obs["iters"], "error:", obs["err"])
-    for kind, what in fl_:
-        print("property failure [%s]: %s" % (kind, what))
+    for f in fl_:
+        print("property failure [%s]: %s" % (f[0], f[1]))
     if not fl_:
         print("every property predicate holds on this call")
     return 1 if fl_ else 0
